@@ -198,6 +198,28 @@ def _init_child(c):
             w = state.prep_md_items(_copy.deepcopy(md_items))
             picks.append(list(w["ens_nums"]))
             pick_engs.append({int(e): sorted(w["picked"][e]["eng_idx"]) for e in w["ens_nums"]})
+        # another simulation is set up in the same interpreter (another interface set, lambda_-1 toggled) while this one is
+        # alive: this one's ensemble definitions belong to its own configuration
+        def _defs(st_):
+            return {int(i): ([float(x) for x in e["interfaces"]], sorted(e["start_cond"]) if not isinstance(e["start_cond"], str) else [e["start_cond"]], e["mc_move"]) for i, e in st_.ensembles.items()}
+
+        defs_a = _defs(state)
+        try:
+            from infretis.classes.repex import REPEX_state
+
+            cfg_b = _copy.deepcopy(cfg)
+            cfg_b["simulation"]["interfaces"] = [x + 0.125 for x in cfg_b["simulation"]["interfaces"]]
+            if cfg_b["simulation"]["tis_set"].get("lambda_minus_one") not in (None, False):
+                cfg_b["simulation"]["tis_set"]["lambda_minus_one"] = False
+            else:
+                cfg_b["simulation"]["tis_set"]["lambda_minus_one"] = cfg_b["simulation"]["interfaces"][0] - 1.0
+            cfg_b["simulation"]["shooting_moves"] = list(reversed(cfg_b["simulation"]["shooting_moves"]))
+            state_b = REPEX_state(cfg_b, minus=True)
+            state_b.initiate_ensembles()
+            out["other_state_built"] = True
+        except Exception:  # noqa: BLE001
+            out["other_state_built"] = False
+        out["defs_changed"] = None if _defs(state) == defs_a else {"before": defs_a[0], "after": _defs(state).get(0)}
         e0 = state.ensembles[0]
         out["init"] = {"diag": diag, "picks": picks, "workers": state.workers, "pick_engs": pick_engs,
                        "ens0": {"interfaces": [float(x) for x in e0["interfaces"]], "start_cond": sorted(e0["start_cond"]) if not isinstance(e0["start_cond"], str) else [e0["start_cond"]]},
@@ -287,6 +309,9 @@ def body(rec, c):
             rec.check(False, f"config:accepted-configuration-fails-to-initialise:{init['error'][0]}", f"{init['error'][1]}\n{init['error'][2][-800:]}\n{info}")
             return
         rec.check(all(init["diag"]), "config:loaded-path-has-zero-weight-in-its-ensemble", f"{init['diag']} {info}")
+        if res.get("other_state_built"):
+            rec.cls("cfg:another-simulation-set-up-in-the-same-interpreter")
+            rec.check(res.get("defs_changed") is None, "config:ensemble-definitions-change-when-another-simulation-is-set-up", f"[0-] {res.get('defs_changed')} {info}")
         rec.check(len(init["picks"]) == c["workers"], "config:first-picks", f"{init['picks']} workers {c['workers']}")
         # the [0-] ensemble: with lambda_-1 (whatever its value, 0.0 included) it lives between lambda_-1 and lambda_0 and its paths
         # may start on either side; without it, it is open to the left and paths start on the right
